@@ -197,7 +197,11 @@ func (x *Exec) havocAllKeep(st *State, skip map[*ssa.Alloc]bool) {
 		for _, tt := range x.top.ct.Preserves {
 			tt = strings.TrimSpace(strings.SplitN(tt, "[A]", 2)[0])
 			t := x.eng.typeFromText(x.top.ct.PkgPath, tt, x.top.ct.Src)
-			for _, k := range []string{x.vc.heapKey("H", t), x.vc.heapKey("E", t), x.vc.heapKey("E", types.NewPointer(t)), x.vc.heapKey("H", types.NewSlice(types.NewPointer(t)))} {
+			keys := []string{x.vc.heapKey("H", t), x.vc.heapKey("E", t), x.vc.heapKey("E", types.NewPointer(t)), x.vc.heapKey("H", types.NewSlice(types.NewPointer(t)))}
+			if _, isMap := t.Underlying().(*types.Map); isMap {
+				keys = []string{x.vc.heapKey("MH", t), x.vc.heapKey("MV", t), x.vc.heapKey("MC", t)}
+			}
+			for _, k := range keys {
 				savedKeys[k] = x.vc.heapGet(st, k)
 			}
 			x.vc.usedAssumed["uncontracted calls in "+x.top.unit+" do not modify values of type "+tt] = true
